@@ -12,13 +12,13 @@ HARNESS = A.HARNESS
 RULE = ('a case = random well-formed configuration (2-6 arguments of the modelled kinds, keys with shared prefixes) + a '
         'valid abstract line + one legal spelling drawn from the grammar (short/long key, abbreviation, "=", glued, '
         'separate, flag groups, element lists and free values for multi-value arguments); each line is spelled 4 '
-        'times; token exp: carries the intended destination values. Non-trivial: accepted configuration with at '
+        'times, and lines of distinct arguments without order-sensitive rules additionally in 2 other orders; token exp: carries the intended destination values. Non-trivial: accepted configuration with at '
         'least one use.')
 TRUSTED_BASE = _c02.TRUSTED_BASE
 ASSUMPTIONS = _c02.ASSUMPTIONS + [
-    'the theorem C01_spelling_independent covers the spellings of ArgH/Spell.v (spell): long flag, --k=v, --k v, '
-    'flag groups, glued and separate value behind a short key; "--", "!", free values of multi-value arguments and the '
-    'positional argument are covered by the correspondence only']
+    'the theorems cover the spellings of ArgH/Spell.v (spell: long flag, --k=v, --k v, flag groups, glued and separate '
+    'value behind a short key) and of the extended grammar xspell (free values, "--"); "!", control characters and '
+    'arguments with an optional value (level counters) are covered by the correspondence only']
 
 
 def gen_cases(tier, rng):
@@ -49,6 +49,18 @@ def gen_cases(tier, rng):
         for _ in range(4):
             w = G.spell_with_ddash(rng, uses, args, True, stats)
             cases.append(G.case_line(args, cons, w, extra=(et,)))
+        # distinct arguments in any order: same assignment, other orders (only where no rule is order-sensitive:
+        # no requires / excludes on a used argument, no positional value, no multi-value argument that would take
+        # a following free word)
+        if (len(uses) >= 2 and len({id(u.arg) for u in uses}) == len(uses)
+                and not any(u.arg.excl or u.arg.req or u.arg.positional or u.arg.multi for u in uses)
+                and not any(a.positional for a in args)):
+            for _ in range(2):
+                us2 = list(uses)
+                rng.shuffle(us2)
+                w = G.spell(rng, us2, args, True, stats)
+                stats['reordered'] = stats.get('reordered', 0) + 1
+                cases.append(G.case_line(args, cons, w, extra=(et,)))
     return {'cases': cases, 'exhaustive': False,
             'scopes': ['%d cases: random configurations x valid lines x 4 spellings; productions used: %s' % (len(cases), stats)]}
 
